@@ -312,6 +312,16 @@ theorem C07_builtins (kw : KW) (b : Name → Val) :
     intro v
     simpa [List.contains_iff_mem] using hn
 
+/-- **C07 (layering alone).** Even for a `TriggerData` whose keywords were *not* filtered (built by hand,
+or by a future entry point that forgets the filter), `extended_kwargs` assigns the built-ins last: the
+reserved names cannot be overridden. -/
+theorem C07_layering (tk : KW) (b : Name → Val) :
+    (∀ r ∈ reserved, kwGet (extendedKwargs tk b) r = some (b r)) ∧
+    (∀ n, n ∉ reserved → kwGet (extendedKwargs tk b) n = kwGet tk n) := by
+  constructor
+  · intro r hr; simp only [extendedKwargs, kwGet_layer, hr, if_true]
+  · intro n hn; simp only [extendedKwargs, kwGet_layer, hn, if_false]
+
 /-- the same for keywords forwarded from a parent event (`sm.send("child", **kwargs, **extra)` inside
 a callback that was offered `eventKwargs kw₁ b₁`): the child's callbacks see the child's values -/
 theorem C07_builtins_forwarded (kw₁ extra : KW) (b₁ b₂ : Name → Val) :
